@@ -115,6 +115,76 @@ Theorem C17_no_ignore_add_dot_stages_everything : forall c w,
       staged (apply_effects tr w) q = Some (blob_id data).
 Proof. exact no_ignore_add_dot_all_staged. Qed.
 
+(* an EMPTY line of .goitignore is not an entry (finding F55: it used to be the
+   empty pattern, which matched every directory target "d/" — one blank line hid
+   every untracked directory from `status` and made `add .` stage nothing beneath
+   any directory).  Blank lines change nothing, wherever they stand: on the list
+   of lines, and on the bytes of the file for ALL b1, b2 (which may contain
+   line feeds, carriage returns and further blank lines themselves) *)
+Theorem C17_blank_lines_change_nothing : forall l1 l2,
+  ign_lines (l1 ++ [] :: l2) = ign_lines (l1 ++ l2).
+Proof. exact blank_lines_change_nothing. Qed.
+
+Theorem C17_blank_line_bytes_change_nothing : forall b1 b2,
+  ign_load (Some (b1 ++ [c_nl] ++ [c_nl] ++ b2)) = ign_load (Some (b1 ++ [c_nl] ++ b2)).
+Proof. exact blank_line_bytes_change_nothing. Qed.
+
+(* a line holding a carriage return only is empty once the scanner has removed
+   it; an empty first line; a file of empty lines only *)
+Theorem C17_blank_crlf_line_bytes_change_nothing : forall b1 b2,
+  ign_load (Some (b1 ++ [c_nl] ++ [c_cr; c_nl] ++ b2)) = ign_load (Some (b1 ++ [c_nl] ++ b2)).
+Proof. exact blank_crlf_line_bytes_change_nothing. Qed.
+
+Theorem C17_blank_first_line_changes_nothing : forall b,
+  ign_load (Some ([c_nl] ++ b)) = ign_load (Some b) /\
+  ign_load (Some ([c_cr; c_nl] ++ b)) = ign_load (Some b).
+Proof. exact blank_first_line_changes_nothing. Qed.
+
+Theorem C17_only_blank_lines_load_builtin : forall n,
+  ign_load (Some (repeat c_nl n)) = Some [ign_builtin].
+Proof. exact only_blank_lines_load_builtin. Qed.
+
+(* only the non-empty lines count *)
+Theorem C17_only_nonempty_lines_count : forall ls,
+  ign_lines ls = ign_lines (filter (fun l => match l with [] => false | _ => true end) ls).
+Proof. exact ign_lines_nonempty. Qed.
+
+(* the former misbehaviour, gone: with .goitignore = "*.log\n\n" no directory
+   target is matched (d/a.log and .goit/ still are, by the entries that are there);
+   the empty pattern the blank line used to become matches every directory target *)
+Example C17_blank_line_hides_no_directory :
+  match ign_load (Some (str "*.log" ++ [c_nl] ++ [c_nl])) with
+  | Some pats => map (ign_match pats) [str "d/"; str "src/deep/"; str "d/f"; str "d/a.log"; str ".goit/"]
+  | None => []
+  end = [false; false; false; true; true].
+Proof. exact blank_line_hides_no_directory. Qed.
+
+Theorem C17_empty_pattern_matched_every_directory :
+  ign_line [] = Some REps /\ forall d, boundary_match REps true (d ++ [c_slash]) = true.
+Proof. exact (conj empty_line_was_empty_pattern empty_pattern_matches_every_dir). Qed.
+
+(* and in a history: `status` lists d/f and src/deep/h, `add .` and `add d` stage
+   them (statement: IgnoreCmdFacts.c17_blank_line_hides_nothing) *)
+Example C17_blank_line_history :
+  snd (fst (step (ACmd c17_env CStatus) c17_blank_w))
+    = OOk [str "untracked .goitignore"; str "untracked d/f"; str "untracked src/deep/h"] /\
+  paths (idx_of (step_w (ACmd c17_env (CAdd [str "."])) c17_blank_w))
+    = [str ".goitignore"; str "d/f"; str "src/deep/h"] /\
+  paths (idx_of (step_w (ACmd c17_env (CAdd [str "d"])) c17_blank_w)) = [str "d/f"].
+Proof.
+  destruct c17_blank_line_hides_nothing as (_ & H1 & H2 & H3 & _).
+  exact (conj H1 (conj H2 H3)).
+Qed.
+
+Print Assumptions C17_blank_lines_change_nothing.
+Print Assumptions C17_blank_line_bytes_change_nothing.
+Print Assumptions C17_blank_crlf_line_bytes_change_nothing.
+Print Assumptions C17_blank_first_line_changes_nothing.
+Print Assumptions C17_only_blank_lines_load_builtin.
+Print Assumptions C17_only_nonempty_lines_count.
+Print Assumptions C17_blank_line_hides_no_directory.
+Print Assumptions C17_empty_pattern_matched_every_directory.
+Print Assumptions C17_blank_line_history.
 Print Assumptions C17_add_never_stages_goit.
 Print Assumptions C17_add_skips_ignored.
 Print Assumptions C17_builtin_only.
